@@ -127,7 +127,14 @@ func (s *ManagedServer) dequeueSave(ctx context.Context) {
 		select {
 		case <-s.saveQueue:
 		case <-ctx.Done():
-			return
+			// A save job may have been queued before the cancellation.
+			// Select picks randomly when both are ready, so check again
+			// and do not drop the job.
+			select {
+			case <-s.saveQueue:
+			default:
+				return
+			}
 		}
 
 		// Wait for cooldown.
